@@ -65,3 +65,22 @@ pub fn reseal(file: &mut [u8]) {
         }
     }
 }
+
+
+/// Seal a logical stream into pages of an arbitrary page size (payload = size - 4).
+pub fn page_with(logical: &[u8], page_size: usize) -> Vec<u8> {
+    let pay = page_size - 4;
+    let mut out = Vec::new();
+    for chunk in logical.chunks(pay) {
+        let mut payload = vec![0u8; pay];
+        payload[..chunk.len()].copy_from_slice(chunk);
+        out.extend_from_slice(&payload);
+        out.extend_from_slice(&crc32c(&payload).to_be_bytes());
+    }
+    out
+}
+
+/// Verdict per page for an arbitrary page size.
+pub fn verdicts_with(file: &[u8], page_size: usize) -> Vec<bool> {
+    file.chunks(page_size).map(|p| p.len() == page_size && p[page_size - 4..] == crc32c(&p[..page_size - 4]).to_be_bytes()).collect()
+}
